@@ -156,7 +156,7 @@ func machine(input OmegaInput) (output OmegaOutput) {
 		ProgramCode: ProgramCode(p),
 		Program:     &program,
 		Memory:      u,
-		PC:          ProgramCounter(i),
+		PC:          i,
 	}
 
 	return OmegaOutput{
@@ -401,7 +401,15 @@ func invoke(input OmegaInput) (output OmegaOutput) {
 	var c ExitReason
 	var pcPrime ProgramCounter
 
-	c, pcPrime = tempHost.Interpreter.SingleStepInvoke(input.Addition.IntegratedPVMMap[n].PC)
+	if pc := input.Addition.IntegratedPVMMap[n].PC; pc <= math.MaxUint32 {
+		c, pcPrime = tempHost.Interpreter.SingleStepInvoke(ProgramCounter(pc))
+	} else if tempHost.Interpreter.Gas < 1 {
+		c = ExitOOG // the counter stays where it is (restored below)
+	} else {
+		// a counter that does not fit 32 bits lies beyond any code: the instruction there is the implicit trap
+		tempHost.Interpreter.Gas -= 1
+		c = ExitPanic
+	}
 
 	// mu* = mu
 	// E_8(g') ++ E_8(w'_0) ++ ... ++ E_8(w'_12)
@@ -418,9 +426,9 @@ func invoke(input OmegaInput) (output OmegaOutput) {
 	tmp.Memory = *tempHost.Interpreter.Memory
 	if c.GetReasonType() == HOST_CALL {
 		// resume after the ecalli: its length comes from the inner program's bitmask, not the outer one's
-		tmp.PC = pcPrime + 1 + ProgramCounter(skip(int(pcPrime), innerProgram.Bitmasks))
-	} else {
-		tmp.PC = pcPrime
+		tmp.PC = uint64(pcPrime) + 1 + uint64(skip(int(pcPrime), innerProgram.Bitmasks))
+	} else if !(c.GetReasonType() == OUT_OF_GAS && tmp.PC > math.MaxUint32) {
+		tmp.PC = uint64(pcPrime)
 	}
 	input.Addition.IntegratedPVMMap[n] = tmp
 
